@@ -53,6 +53,10 @@ type MCase struct {
 	// these static weights for the same endpoints and the manager refreshes; the routing is
 	// then that of the re-weighted set, also after an endpoint has left rotation
 	Reweigh []int32 `json:"reweigh,omitempty"`
+	// FlipWeightType (registry, uniform weight type): after the first batch of calls the
+	// registry publishes the same endpoints with the other weight type (all static with the
+	// case's weights <-> all loop) and the manager refreshes
+	FlipWeightType bool `json:"flip_weight_type,omitempty"`
 }
 
 var (
@@ -120,7 +124,10 @@ func drawM(rt *rapid.T) MCase {
 	for i := 0; i < c.NServers; i++ {
 		c.Weights = append(c.Weights, int32(rapid.SampledFrom([]int{4, 8, 20, 40, 100}).Draw(rt, "weight")))
 	}
-	if c.Registry && c.Weighted && rapid.IntRange(0, 1).Draw(rt, "reweigh") == 0 {
+	if c.Registry && len(c.WTypes) == 0 && rapid.IntRange(0, 2).Draw(rt, "flipType") == 0 {
+		c.FlipWeightType = true
+	}
+	if c.Registry && c.Weighted && !c.FlipWeightType && rapid.IntRange(0, 1).Draw(rt, "reweigh") == 0 {
 		for i := 0; i < c.NServers; i++ {
 			c.Reweigh = append(c.Reweigh, int32(rapid.SampledFrom([]int{4, 8, 20, 40, 100}).Draw(rt, "newWeight")))
 		}
@@ -132,6 +139,9 @@ func drawM(rt *rapid.T) MCase {
 		pts = append(pts, refHostPoints(fmt.Sprintf("127.0.0.%d", i+1), rounds, algKetama)...)
 		if len(c.Reweigh) > 0 {
 			pts = append(pts, refHostPoints(fmt.Sprintf("127.0.0.%d", i+1), refRounds(true, c.Reweigh[i]), algKetama)...)
+		}
+		if c.FlipWeightType {
+			pts = append(pts, refHostPoints(fmt.Sprintf("127.0.0.%d", i+1), refRounds(!c.Weighted, c.Weights[i]), algKetama)...)
 		}
 	}
 	n := rapid.IntRange(1, 24).Draw(rt, "ncalls")
@@ -285,6 +295,28 @@ func runM(c MCase) *stat.Failure {
 	}
 	if f := phase("initial set:", order, in); f != nil {
 		return f
+	}
+	if c.FlipWeightType && mreg != nil {
+		c.Weighted = !c.Weighted
+		for i := 0; i < c.NServers; i++ {
+			if c.Weighted {
+				mreg.eps[i].WeightType, mreg.eps[i].Weight = 1, c.Weights[i]
+			} else {
+				mreg.eps[i].WeightType, mreg.eps[i].Weight = 0, 100
+			}
+			points[i] = refHostPoints(hosts[i], refRounds(c.Weighted, c.Weights[i]), algKetama)
+		}
+		if refCollision(points) {
+			st.Excluded("ring-collision")
+			return nil
+		}
+		if err := sp.VerifRefresh(); err != nil {
+			return stat.Failf("harness-failure", "refresh: %v", err)
+		}
+		st.Class("manager-weight-type-flipped-by-refresh", 1)
+		if f := phase(fmt.Sprintf("after the registry flipped the weight type of all endpoints (now static=%v):", c.Weighted), order, in); f != nil {
+			return f
+		}
 	}
 	if len(c.Reweigh) > 0 && mreg != nil {
 		for i := 0; i < c.NServers; i++ {
